@@ -695,6 +695,10 @@ class CallMixin:
             return self.ev1(node.args[0], cur)
         if fn == "implies":
             a = self.truthy(st, self.ev1(node.args[0], st))
+            if z3.is_false(z3.simplify(a)):
+                # statically false antecedent: the consequent is not evaluated (it may not even be well-formed on this path,
+                # e.g. result[3][0] where result[3] is the literal None)
+                return vbool(z3.BoolVal(True))
             b = self.truthy(st, self.ev1(node.args[1], st))
             return vbool(z3.Implies(a, b))
         if fn == "iff":
